@@ -383,6 +383,9 @@ static inline _Bool u32sv_eq(u32sv_t a, u32sv_t b) { if (a.n != b.n) return 0; f
 /* ---------------------------------------------------------------- optional / pair / array */
 typedef struct { _Bool has; sv_t v; } opt_sv_t;
 typedef struct { _Bool has; _Bool v; } opt_Bool_t;
+/* std::ranges::mismatch over two character ranges (in_in_result of two const char* iterators) */
+typedef struct { const char *in1; const char *in2; } mismatch_result_t;
+static inline mismatch_result_t sv_mismatch(sv_t a, sv_t b) { size_t i = 0; while (i < a.n && i < b.n && a.p[i] == b.p[i]) i++; return (mismatch_result_t){a.p + i, b.p + i}; }
 typedef struct { _Bool has; str_t v; } opt_str_t;
 typedef struct { _Bool has; uint16_t v; } opt_uint16_t;
 typedef struct { _Bool has; uint32_t v; } opt_uint32_t;
